@@ -150,7 +150,7 @@ def run(ctx):
                 ctx.regime('3d:distance-range-not-in-kpc')
             fitter = gen.make_fitter(bn, theta, d, law, pkg_range, dr, use_memmap=memmap, remove_resolved=resolved, distance_unit=dunit)
         except Exception as exc:
-            ctx.violation('setup:fitter', 'Fitter() raised: %r' % (exc,), wit0)
+            ctx.raised(exc, 'setup:fitter', 'Fitter() raised: %r' % (exc,), wit0)
             ctx.rmdir(d)
             continue
         ctx.regime('mode:' + mode)
@@ -178,7 +178,7 @@ def run(ctx):
             dist = np.asarray(fitter.models.distances.to(u.kpc).value, float)
             logm = fitcheck.grid_logm(conv, aps, theta, dist)
             logd = np.log10(dist)
-        delta = 3e-7 * (1 + float(np.max(np.abs(np.asarray(logm, float))))) if fitcheck.holds_float32(fitter) else 0.0
+        delta = 3e-7 * (1 + float(np.max(np.abs(np.asarray(logm, float))))) if ((memmap and is_v2) or fitcheck.holds_float32(fitter)) else 0.0
         for isrc in range(n_src):
             m0 = int(rng.choice([m for m in range(n_models) if m not in zero_models]))
             a0 = float(rng.uniform(0, 12))
@@ -213,7 +213,7 @@ def run(ctx):
             try:
                 fitter.fit(gen.build_source('s', valid, flux, err))
             except Exception as exc:
-                ctx.violation('fit-raised', 'Fitter.fit raised inside the quantifier: %r' % (exc,), wit)
+                ctx.raised(exc, 'fit-raised', 'Fitter.fit raised inside the quantifier: %r' % (exc,), wit)
                 continue
             sm = CUR.get('summary')
             ctx.case((ip, isrc, ctx.shard), nontrivial=bool(sm and n_models >= 2),
@@ -228,7 +228,7 @@ def run(ctx):
                 f = chi[np.isfinite(chi)]
                 if f.size > 1 and np.any(np.diff(f) == 0):
                     ctx.regime('exact_ties')
-                if np.any((chi >= 1e29) & np.isfinite(chi)):
+                if np.any(chi >= 1e29):          # (a model excluded by a limit of confidence 1: ">= 1e30", finite or infinite)
                     ctx.regime('rows_1e30')
                 if np.any(np.isinf(chi)) and np.any(np.isfinite(chi)):
                     ctx.regime('rows_inf')
